@@ -26,12 +26,11 @@ and threads the host: the messages the robot posts (`Eval.Result.notified`) beco
 pull requests are created / declined, a pull request whose destination contains its source is MERGED (the mock host's
 rule), the pull requests a queue rebuild re-submits are evaluated one after the other.
 
-The guard of a queue evaluation is `queuesOK = QV.validated ∧ Select.Validated`: `QV.validated` is the model of
-`validate()`; `Select.Validated` (decidable: every version with a queue head has its `q/<version>`, a stabilization
-queue has its development branch, the queues are upper-closed along the cascade, ids are positive) is what the
-selection model needs of a collection that passed `validate()`. That it follows from `validate()` is checked by the tie
-on every queue evaluation (harness/fullsys.py: the model predicts the outcome of every queue evaluation; harness/selectsys.py
-asserts it directly); it is the one place where the closed model asks more than the code does.
+The guard of a queue evaluation is `queuesOK = QV.validated`: the model of `QueueCollection.validate()`, and nothing
+else. What the selection model needs of the collection (`Select.Validated`: every version with a queue head has its
+`q/<version>`, a stabilization queue has its development branch, the queues are upper-closed along the cascade, ids
+are positive) is NOT asked here: it is a consequence of the invariant of the closed system (`Full.FullInv`, which
+holds Close's strengthened invariant; `Lemmas/Full.lean`), proved preserved by every event.
 
 Oracle answers of re-submitted evaluations: the `k`-th evaluation inside one event reads `orc.drop (16 * k)`.
 Core Lean only.
@@ -161,11 +160,10 @@ def targetClass : BertE.Prs.Target → String
 /-! ### the queue evaluation -/
 
 /-- what lets a queue evaluation read `mergeable_prs`: `QueueCollection.validate()` passed -/
-def queuesOK (s : Sys) : Bool := BertE.QV.validated s && decide (BertE.Select.Validated s)
+def queuesOK (s : Sys) : Bool := BertE.QV.validated s
 
 /-- the status class of a queue evaluation that `validate()` stops -/
-def validationClass (s : Sys) : String :=
-  if BertE.QV.validated s then "QueuesNotValidated" else (BertE.QV.evalQueues s [] []).outcome
+def validationClass (s : Sys) : String := (BertE.QV.evalQueues s [] []).outcome
 
 /-- `queues.mergeable_prs` of this moment: computed from the build statuses of the host -/
 def selOf (w : World) (force : Bool) : List Nat :=
